@@ -194,6 +194,10 @@ def main(argv=None):
         harness_err.append("translator validation failed: " + val_error)
     if decided < ledger:
         harness_err.append(f"only {decided} obligations decided, ledger requires {ledger}")
+    allow = getattr(P, "ALLOW_UNDECIDED", 0)
+    if len(undecided) > allow and not a.jobs:
+        harness_err.append(f"{len(undecided)} obligation(s) undecided (unknown, or a counterexample that did not reproduce on the real code); "
+                           f"on the unchanged tree every obligation is decided, so nothing is claimed for this tree")
     if harness_err and status == 0:
         status = 2
 
